@@ -112,7 +112,10 @@ func runRegScript(script string) (string, *fw.OracleFailure) {
 				out = append(out, "stranded")
 				continue
 			}
-			if strings.Contains(sock.Str(e, "err"), "key not exist") {
+			if strings.Contains(sock.Str(e, "err"), "key not exist") && !sock.Bool(e, "isNotExist") {
+				flag("registry/notexist-identity", "the error for a key that is not online is no longer service.ErrNotExistKey (errors.Is): "+sock.Str(e, "err"))
+			}
+			if sock.Bool(e, "isNotExist") {
 				if got != "" {
 					flag("registry/route", "not-exist returned although the command reached connection "+got)
 				}
